@@ -155,7 +155,8 @@ P("C13",
    book("c13_cancel_disabled_m2", "cancel_order, trading off", timeout=600),
    book("c13_admin_m2", "toggles change nothing but the flag", timeout=600),
    book("c13_place_bid_limit_enabled_m2", "after re-enabling: bid limit on a possibly crossed book == reference"),
-   book("c13_place_ask_limit_enabled_m2", "after re-enabling: ask limit on a possibly crossed book == reference")],
+   book("c13_place_ask_limit_enabled_m2", "after re-enabling: ask limit on a possibly crossed book == reference"),
+   book("c14_market_admin", "Market-level toggles reach every asset and change nothing else", covers=["cover.reset_reaches_asset_1"], timeout=900)],
   extra_assume=[DISC])
 
 
@@ -260,6 +261,8 @@ PROPS["C10"] = {
 
 PROPS["C08"]["harnesses"] = PROPS["C08"]["harnesses"] + [MLOOP, MSUBMIT[2]]
 PROPS["C08"]["stubs"] = PROPS["C08"]["stubs"] + ["Market::process_event -> Market::verif_log_event in market_env_step_loop_* (fixed-size log)"]
+
+PROPS["C13"]["harnesses"] = PROPS["C13"]["harnesses"] + [de("env_toggle_m2", "Env::enable_trading / disable_trading set the wrapped book's flag and change nothing else", covers=["cover.re_enabled"], timeout=600)]
 
 PROPS["C11"] = {
     "level": "model_checking", "functions": ["Env::<L>::step", "Level2DataRecords::{new,append_record}", "Env::{get_prices,get_volumes,get_trade_vols,get_level_2_data_history}"] + STEP_FUNCS[3:],
